@@ -14,6 +14,9 @@ void jcsa_use_jsonpath(jsoncons::json& j, const jsoncons::ojson& oj, const std::
     jsonpath::json_query(j, p, [](const std::string&, const json&){});
     jsonpath::json_replace(j, p, json(1));
     jsonpath::json_replace(j, p, [](const std::string&, json& v){ v = 1; });
+    auto aset = make_alloc_set(std::allocator<char>(), std::allocator<char>());
+    jsonpath::json_replace(aset, j, p, 1); // with a json value this overload does not compile (N6)
+    jsonpath::json_replace(aset, j, p, [](const std::string&, json& v){ v = 1; });
     auto e = jsonpath::make_expression<json>(p);
     json r3 = e.evaluate(j);
     e.evaluate(j, [](const std::string&, const json&){});
